@@ -41,6 +41,7 @@ def record(ctx, bench, rounds, tag, yield_seed, cli_share=0.5):
     files, mods = [], {}
     shared = None
     k = [0]
+    idle_ok = [True]
 
     def new_daemon(own):
         k[0] += 1
@@ -64,7 +65,8 @@ def record(ctx, bench, rounds, tag, yield_seed, cli_share=0.5):
                     e = mod_entry(cl)
                     mods[e["h"]] = e
                 if dm.health()["alive"]:
-                    dm.wait_idle(30)
+                    if idle_ok[0] and dm.wait_idle(30) != 1:
+                        idle_ok[0] = False        # bookkeeping is off (reported by the replay stage): do not wait again
                 elif not hostile:
                     shared = None
             finally:
